@@ -515,6 +515,22 @@ def scaled(x):
     return int(k)
 
 
+def load_in_child(path):
+    """load an accepted HDF5 file in a forked child: a file whose indices do not fit its shape can
+    corrupt the heap inside scipy, which must not take the check down with it"""
+    pid = os.fork()
+    if pid == 0:
+        try:
+            load_table(path)
+            os._exit(0)
+        except BaseException:  # noqa
+            os._exit(1)
+    _, status = os.waitpid(pid, 0)
+    if os.WIFSIGNALED(status):
+        return 'crashes-the-interpreter'
+    return 'loads' if os.WEXITSTATUS(status) == 0 else 'does-not-load'
+
+
 def run_h5(c):
     t = tables.build(c['spec'])
     path = os.path.join(tmpdir(), 'm.h5')
@@ -537,12 +553,7 @@ def run_h5(c):
     tags = []
     if obs['valid'] is True:
         key = 'h5-accepted-mutant' if c['muts'] else 'h5-library-written'
-        try:
-            load_table(path)
-            key += ':loads'
-        except Exception:  # noqa
-            key += ':does-not-load'
-        tags.append(key)
+        tags.append(key + ':' + load_in_child(path))
     facts = h5_facts(path)
     return obs, (tree, facts), tags
 
